@@ -1,0 +1,19 @@
+//go:build verif
+// +build verif
+
+package cmd
+
+// Contracts for the verification machinery in /verif (govc). Comment-only file:
+// it adds no executable code and is compiled only with the build tag `verif`.
+
+//@ props C20
+//@
+//@ spec func fracUnits(s string) int = hasFrac(s) ? digitsVal(fracPart(s)) * pow10(8 - len(fracPart(s))) : 0
+//@ spec func wholeVal(s string) int = wholePart(s) == "" ? 0 : digitsVal(wholePart(s))
+//@
+//@ func FactoidToFactoshi
+//@   arith checked
+//@   ensures @well_formed err == nil ==> decimalForm(amt) && (hasFrac(amt) ==> len(fracPart(amt)) <= 8)
+//@   ensures @exact err == nil ==> result == wholeVal(amt) * 100000000 + fracUnits(amt)
+//@   ensures @zero_on_error err != nil ==> result == 0
+//@   canary @accepts_anything err == nil
